@@ -1,12 +1,15 @@
 #!/bin/bash
 # tools/regress_seeds.sh: run every saved seeded change (seeded/<id>/patch.diff) against the checks that are
 # recorded as catching it, in a background run on its own snapshot of /repo (vp run --with-repo): /repo itself is
-# not touched. Result lines: "<seed> <Cxx> CAUGHT(input)|CAUGHT(no-input)|MISSED".
+# not touched. `tools/regress_seeds.sh I N` runs only the seeds whose index is I modulo N (N runs in parallel). Result lines: "<seed> <Cxx> CAUGHT(input)|CAUGHT(no-input)|MISSED".
+I=${1:-0}; N=${2:-1}
 vp run --with-repo --timeout 6h -- bash -c '
+k=-1
 mkdir -p lean/.lake && rsync -a /verif/lean/.lake/ lean/.lake/ && ./check --setup >/dev/null 2>&1
 for d in seeded/*/; do
   id=$(basename $d)
   [ -f $d/patch.diff ] || continue
+  k=$((k+1)); [ $((k % '$N')) -eq '$I' ] || continue
   checks=$(python3 -c "import json,re,sys; m=json.load(open(\"$d/meta.json\")); print(\" \".join(dict.fromkeys(re.findall(r\"C\\d\\d\", m.get(\"caught_by\",\"\")))))")
   git -C $VP_RUN_REPO apply $PWD/$d/patch.diff 2>/dev/null || git -C $VP_RUN_REPO apply $PWD/$d/patch.orig.diff 2>/dev/null || { echo "$id PATCH-DOES-NOT-APPLY"; continue; }
   for c in $checks; do
